@@ -64,3 +64,16 @@ Theorem C08_sma_constant n (v : R) k : 1 <= n <= pmax - 1 ->
   exists s0, sma_new n v = Ok s0 /\ snd (sma_next (steps sma_next s0 (repeat v k)) v) = snd (sma_next s0 v).
 Proof. exact (constant_output _ _ _ _ _ sma_correct sma_ext n v k). Qed.
 End C08.
+
+(** Known finding KF-C08-hma-constant-noise (binary64, kernel computation): HMA(9)
+    built from x = 0x1.97f498a7cd536p+16 and fed x again does not return a constant:
+    the second output differs from the first in the last bits (rounding residue of the
+    WMA cascade), which the pivot detector of HullMovingAverage turns into a signal. *)
+From Yata Require Import Base.NumF64.
+From Coq Require Import Floats.
+Example C08_hma_constant_noise_refuted :
+  let x := (0x1.97f498a7cd536p+16)%float in
+  exists s0, hma_new (pw := PW8) (N := NumF64) 9 x = Ok s0 /\
+    PrimFloat.eqb (snd (hma_next (pw := PW8) s0 x))
+                  (snd (hma_next (pw := PW8) (steps (hma_next (pw := PW8)) s0 [x]) x)) = false.
+Proof. eexists. split; [reflexivity|]. vm_compute. reflexivity. Qed.
